@@ -127,8 +127,27 @@ def dishonest(ch, now):
                   "signature": qe_sig.hex(), "signed_by": key_parent})
     elems.append({"name": "quote", "type": "sgx_quote", "message": quote.hex(),
                   "custom_data": custom.hex(), "signature": q_sig.hex(), "signed_by": "attestation"})
+    targets = ["quote"]
+    if ch.draw(3, "dis.second-branch") == 1:
+        # a second attested quote under the same parent (own attestation key), healthy or failing at
+        # its non-leaf element; each target is judged along its own path
+        att_b = sgxpki.sk_from(b"attb" + seed)
+        krd_b = hashlib.sha256(att_b.verifying_key.to_string() + auth).digest()
+        rb_b = sgxpki.report_body(krd_b + b"\x00" * 32)
+        bad_b = ch.draw(2, "dis.second-branch.bad") == 1
+        signer_b = sgxpki.sk_from(b"zzb") if (bad_b or key_signer.curve != sgxpki.P256) else key_signer
+        quote_b = b"\x03\x00\x02\x00" + b"\x00" * 44 + sgxpki.report_body(
+            hashlib.sha256(custom + b"b").digest() + b"\x00" * 32)
+        elems.append({"name": "attestation_b", "type": "sgx_attestation_key", "message": rb_b.hex(),
+                      "key": (b"\x04" + att_b.verifying_key.to_string()).hex(), "auth_data": auth.hex(),
+                      "signature": sgxpki.sign_der(signer_b, rb_b).hex(), "signed_by": key_parent})
+        elems.append({"name": "quote_b", "type": "sgx_quote", "message": quote_b.hex(),
+                      "custom_data": (custom + b"b").hex(),
+                      "signature": sgxpki.sign_der(att_b, quote_b).hex(), "signed_by": "attestation_b"})
+        targets = ch.pick([["quote_b", "quote"], ["quote", "quote_b"]], "dis.targets")
+        dev = dev + ("+bad-second-branch" if bad_b else "+second-branch")
     elems = ch.shuffle(elems, "dis.order")
-    return {"version": 2, "targets": ["quote"], "elements": elems}, root_der, dev
+    return {"version": 2, "targets": targets, "elements": elems}, root_der, dev
 
 
 def run_one(ch, cfg):
